@@ -411,6 +411,9 @@ func (i *interpreter) patternIntrinsic(fn *ssa.Function) intrinsic {
 	if noopPkgs[pp] {
 		return noopCall
 	}
+	if pp == "reflect" && i.reflectNative[fn.String()] {
+		return nil
+	}
 	if pp == "reflect" || pp == "github.com/fatih/structs" || pp == "internal/reflectlite" {
 		return func(fr *frame, args []value) value {
 			abandon("reflection is not encoded (%s)", fr.fn.String())
@@ -428,6 +431,8 @@ func (i *interpreter) patternIntrinsic(fn *ssa.Function) intrinsic {
 
 func (i *interpreter) registerIntrinsics() {
 	in := i.intrinsics
+	i.reflectNative = map[string]bool{}
+	i.registerReflect()
 	// sync.Mutex / RWMutex
 	in["(*sync.Mutex).Lock"] = func(fr *frame, args []value) value { return fr.mutexLock(args[0].(*value), false) }
 	in["(*sync.Mutex).Unlock"] = func(fr *frame, args []value) value { return fr.mutexUnlock(args[0].(*value), false) }
